@@ -143,7 +143,8 @@ def build_book(r, tier):
     # keys/vals: the record content itself (per-file header reset, concatenation of files), not only the counters
     prog = ("str keys = joink($*, \";\"); str vals = joinv($*, \";\"); $nf1 = NF; $nf2 = NF; "
             "$* = {\"nr\": NR, \"fnr\": FNR, \"f\": FILENAME, \"k\": FILENUM, \"nf1\": $nf1, \"nf2\": $nf2, \"keys\": keys, \"vals\": vals}; "
-            "end { emit mapsum({\"final_nr\": NR}, {}) }")
+            "end { " + ("if (is_present(NF) && NF < 0) { print \"NF below zero at end\" } " if r.chance(0.5) else "") +  # no current record here: any value will do, a crash will not
+            "emit mapsum({\"final_nr\": NR}, {}) }")
     args = ["mlr"] + iflags + ["--ojson"] + (["skip-trivial-records", "then"] if trivial else []) + ["put", prog] + names
     model.append({"final_nr": nr})
     return {"kind": "book", "args": args, "files": files, "model": model, "batch": batch, "cseed": r.randint(1, 1 << 40), "fmt": fmt,
